@@ -14,8 +14,22 @@ def _py(v):
     return None if v == NONE else v
 
 
-def mkop(n, a=0, b=0, s=0, new=()):
-    return {"n": n, "a": a, "b": b, "s": s, "new": list(new)}
+def mkop(n, a=0, b=0, s=0, new=(), rhs="list"):
+    return {"n": n, "a": a, "b": b, "s": s, "new": list(new), "rhs": rhs}
+
+
+RHS = ("list", "tuple", "gen", "iter")
+
+
+def _rhs(new, how):
+    """The same new items spelled as the caller may spell them: list / tuple / generator / iterator."""
+    if how == "tuple":
+        return tuple(new)
+    if how == "gen":
+        return (x for x in new)
+    if how == "iter":
+        return iter(new)
+    return new
 
 
 # ------------------------------------------------------------------------------------------------
@@ -61,9 +75,10 @@ class Subject:
         ml = self.lst
         n = op["n"]
         new = [self.conc(i) for i in op["new"]]
+        how = op.get("rhs", "list")
         try:
             if n == "setslice":
-                ml[slice(_py(op["a"]), _py(op["b"]), _py(op["s"]))] = new
+                ml[slice(_py(op["a"]), _py(op["b"]), _py(op["s"]))] = _rhs(new, how)
             elif n == "delslice":
                 del ml[slice(_py(op["a"]), _py(op["b"]), _py(op["s"]))]
             elif n == "setitem":
@@ -75,9 +90,9 @@ class Subject:
             elif n == "append":
                 ml.append(new[0])
             elif n == "extend":
-                ml.extend(new)
+                ml.extend(_rhs(new, how))
             elif n == "iadd":
-                ml += new
+                ml += _rhs(new, how)
             elif n == "pop":
                 if op["a"] == NONE:
                     ml.pop()
@@ -301,7 +316,7 @@ def record(subject_cls, items, focus, ops):
     return tr
 
 
-def all_ops(maxidx, maxstep, maxnew, vals, setfocus=True):
+def all_ops(maxidx, maxstep, maxnew, vals, setfocus=True, iterables=False):
     idx = list(range(-maxidx, maxidx + 1))
     steps = [s for s in range(-maxstep, maxstep + 1) if s] + [NONE, 0]
     fresh = lambda k: [7 + j for j in range(k)]  # noqa: E731
@@ -320,6 +335,14 @@ def all_ops(maxidx, maxstep, maxnew, vals, setfocus=True):
     ops.append(mkop("append", new=fresh(1)))
     for k in range(maxnew + 1):
         ops += [mkop("extend", new=fresh(k)), mkop("iadd", new=fresh(k))]
+        # the right-hand side spelled as a tuple / generator / iterator: `+=` takes any iterable on every subject;
+        # extend / slice assignment take any iterable on the plain MonitoredList (sized collections on the focus list)
+        ops += [mkop("iadd", new=fresh(k), rhs=h) for h in RHS[1:]]
+        ops += [mkop("extend", new=fresh(k), rhs=h) for h in (RHS[1:] if iterables else RHS[1:2])]
+        for a in (0, 1, -1, NONE):
+            ops += [mkop("setslice", a, a, NONE, fresh(k), rhs=h) for h in (RHS[1:] if iterables else RHS[1:2])]
+        if iterables:
+            ops += [mkop("setslice", NONE, NONE, 2, fresh(k), rhs=h) for h in RHS[1:]]
     for v in vals:
         ops.append(mkop("remove", v))
     ops += [mkop("reverse"), mkop("sort"), mkop("clear")]
@@ -343,6 +366,7 @@ def rep_ops(base):
            mkop("pop", NONE), mkop("pop", 0), mkop("setfocus", 0), mkop("setfocus", 1), mkop("setfocus", -1), mkop("setfocus", 2),
            mkop("append", new=f(1)), mkop("extend", new=[]), mkop("extend", new=f(1)), mkop("extend", new=f(2)),
            mkop("iadd", new=[]), mkop("iadd", new=f(1)), mkop("iadd", new=f(2)), mkop("remove", 1), mkop("remove", 2),
+           mkop("iadd", new=f(2), rhs="gen"), mkop("iadd", new=f(1), rhs="iter"), mkop("extend", new=f(2), rhs="tuple"),
            mkop("reverse"), mkop("sort"), mkop("clear"), mkop("imul", 0), mkop("imul", 1), mkop("imul", 2)]
     return ops
 
@@ -398,7 +422,8 @@ def random_ops(rng, n, maxsize=8, setfocus=True):
             ops.append(mkop(rng.choice(["append"]), new=fresh(1)))
             size_hint += 1
         elif r < 0.78 and size_hint < maxsize:
-            ops.append(mkop(rng.choice(["extend", "iadd"]), new=fresh(rng.randint(0, 2))))
+            nm = rng.choice(["extend", "iadd"])
+            ops.append(mkop(nm, new=fresh(rng.randint(0, 2)), rhs=rng.choice(RHS if nm == "iadd" else RHS[:2])))
             size_hint += 2
         elif r < 0.84:
             ops.append(mkop("pop", rng.choice([NONE, NONE] + list(range(-9, 10)))))
@@ -470,9 +495,10 @@ def run(chk):
     # other subjects: every op from a few states
     few = [s for s in sts if len(s[0]) in (0, 1, 3)][:: (3 if quick else 1)]
     small_ops = all_ops(3, 2, 1, [1, 2, 3])
+    plain_ops = all_ops(3, 2, 1, [1, 2, 3], iterables=True)
     for cls in (ML, SFLW, SFLWPlain, SLW, PileC, ColumnsC, GridFlowC):
         for items, f in few:
-            for op in small_ops:
+            for op in (plain_ops if cls in (ML, SLW) else small_ops):
                 if cls is ML and op["n"] == "setfocus":
                     continue
                 traces.append(record(cls, items, f, [op]))
@@ -547,6 +573,22 @@ def run(chk):
                 nontriv.add(json.dumps([t["subject"], t["init"], e["op"]]))
     chk.cov["clause_counts"] = {f"{a}.{b}.{c}": n for (a, b, c), n in sorted(kinds.items())}
     chk.cov["distinct_nontrivial"] = len(nontriv)
+    rhs_seen = {}
+    for t in traces:
+        for e in t["ev"]:
+            if e["op"]["n"] in ("iadd", "extend", "setslice") and e["exc"] == "" and e["op"]["new"]:
+                k = f'{t["subject"]}.{e["op"]["n"]}.{e["op"].get("rhs", "list")}'
+                rhs_seen[k] = rhs_seen.get(k, 0) + 1
+    chk.cov["rhs_spellings_accepted"] = dict(sorted(rhs_seen.items()))
+    for sub in SUBJECTS:
+        for h in RHS:
+            if not rhs_seen.get(f"{sub}.iadd.{h}"):
+                chk.vacuity.append(f"driver.{sub}.iadd.{h}")
+        if not rhs_seen.get(f"{sub}.extend.tuple"):
+            chk.vacuity.append(f"driver.{sub}.extend.tuple")
+    for h in RHS:
+        if not rhs_seen.get(f"MonitoredList.setslice.{h}"):
+            chk.vacuity.append(f"driver.MonitoredList.setslice.{h}")
     for sub in SUBJECTS:
         for opn in ("delslice", "pop", "remove", "delitem", "setslice", "clear", "insert"):
             if not kinds.get((sub, opn, "ok")):
@@ -560,7 +602,9 @@ def run(chk):
     chk.sample(traces[-1])
     chk.cov["trusted_base"] = ["TLC", "vf/props/c16.py Subject.apply/project (call-through driver)", "PySlice.tla (list semantics)"]
     chk.assumptions += ["new items are fresh values, distinct from the list's (focus identity is positional in the code)",
-                        "constructor focus= is given valid values only", "generators as new items are out of scope"]
+                        "constructor focus= is given valid values only",
+                        "generators / iterators as new items: for `+=` on every subject, for extend / slice assignment on the plain MonitoredList "
+                        "and SimpleListWalker only (MonitoredFocusList.extend / __setitem__ are declared for sized collections and call len())"]
 
 
 def replay(chk, path):
